@@ -26,7 +26,7 @@ type PropDef struct {
 var graphSetPosts = []string{"C09:add:", "C09:union:", "C10:", "C08:add:", "C08:union:", "C08:intersect:", "C08:remove:", "C12:copy:", "C08:indexNodes:", "C08:indexRoots:", "C08:idx", "C15:", "C12:inv", "C03:inv", "C01:inv", "C16:inv", "C16:roots:", "C16:purlType:", "C08:inv", "C09:inv", "C10:inv", "C08:cleanEdges:closedFrom", "C08:cleanEdges:closedTo", "C08:cleanEdges:oneEdgePerSourceAndType", "C08:cleanEdges:noRepeatedTargets"}
 
 var propDefs = map[string]PropDef{
-	"C01": {Classes: []string{"TABLE", "LEMMA", "POST", "INV", "PRE"}, Level: "proof", Skip: []string{"C03:inv"}},
+	"C01": {Classes: []string{"TABLE", "LEMMA", "POST", "INV", "PRE"}, Level: "proof"},
 	"C02": {Classes: []string{"TABLE", "LEMMA", "POST", "INV", "PRE"}, Level: "proof"},
 	"C03": {Classes: []string{"LEMMA", "POST", "INV", "PRE"}, Level: "proof", Skip: []string{"C01:inv"}},
 	"C04": {Classes: []string{"SAFE", "POST", "PRE", "INV", "OWN"}, Level: "proof", Skip: graphSetPosts},
